@@ -3,7 +3,7 @@
 (* the verif_hooks re-exports) is one line; the TLA+ definitions evaluated    *)
 (* with the big-number back end are the oracle.  Stateless: the only variable *)
 (* is the position in the trace.                                              *)
-EXTENDS Pool, Stable, Json, IOUtils
+EXTENDS Pool, Stable, Newton, Json, IOUtils
 
 Rec == ndJsonDeserialize(IOEnv.TRACE)
 VARIABLE l
@@ -67,8 +67,13 @@ St2DepEv(ev) ==
       suffix == IF a.da # a.db THEN "(unequal-decimals)" ELSE ""
       e0 == (N(16) ++ Lopsided(NMax(A0, B0), NMin(A0, B0))) ** U
       e1 == (N(16) ++ Lopsided(NMax(A1, B1), NMin(A1, B1))) ** U
-  IN IF ~inDomain \/ ev.res # "ok" THEN <<>>
-     ELSE MintChecks("C03", suffix, ev.out.minted, a.S, Dstar2(A0, B0, a.amp), Dstar2(A1, B1, a.amp), e0, e1)
+      \* drift: the step-for-step transcription of compute_d / the LP mint (Newton.tla) predicts verdict and amount
+      impl == ImplMint2(a.amp, a.xa, a.xb, a.pa, a.pb, a.S)
+      drift == IF ev.res = "aborted" \/ a.pa = Zero \/ a.pb = Zero THEN <<>>
+               ELSE << <<"drift.st2dep.mint=Newton-transcription",
+                          (ev.res = "ok") = impl.ok /\ (impl.ok => ev.out.minted = impl.minted)>> >>
+  IN drift \o (IF ~inDomain \/ ev.res # "ok" THEN <<>>
+               ELSE MintChecks("C03", suffix, ev.out.minted, a.S, Dstar2(A0, B0, a.amp), Dstar2(A1, B1, a.amp), e0, e1))
 
 \* ---- three-asset curve (C04): raw base units -----------------------------------------------------------------
 \* floor(D after) < floor(D before) proves that the real invariant fell (literal clause).  The code solves D and y by
